@@ -97,6 +97,13 @@ v('C07', 'fire', KA, 'cho_solve((L, True), HP', 'cho_solve((L, False), HP')
 v('C07', 'fire', KA, 'S = HP @ H.T + R', 'S = HP @ H.T')
 v('C07 C19', 'fire', KA, 'K = cho_solve((L, True), HP, overwrite_b=True).T', 'K = cho_solve((L, True), P, overwrite_b=True).T')
 v('C07', 'silent', KA, 'U = np.eye(len(x)) - K.dot(H)', 'U = np.identity(len(x)) - K @ H')
+_SP_OLD = "        if not self.with_altitude:\n            pva = pva.copy()\n            pva.VD = 0.0\n        i = len(self.trajectory) - 1"
+v('C13', 'fire', 'strapdown.py', _SP_OLD, _SP_OLD.replace('if not self.with_altitude:', 'if not self.with_altitude and abs(pva.VD) > 0:'), 'seeded C13 round 3: zeroing skipped when abs(VD) > 0 is false (NaN passes)')
+v('C13 C02', 'silent', 'strapdown.py', _SP_OLD, _SP_OLD.replace('if not self.with_altitude:', 'if not self.with_altitude and pva.VD != 0:'), 'zeroing skipped only when VD == 0 (NaN != 0 is true)')
+v('C03', 'fire', 'sim.py', 'omega[3] = -ac + np.cross(a, ab) / 6', 'omega[3] = np.cross(ab, a) / 6 - ac', 'seeded C03 round 3: operands of a x (a x b) exchanged')
+v('C16', 'fire', 'transform.py', """    rn, _, rp = earth.principal_radii(0.5 * (lla1[:, 0] + lla2[:, 0]),
+                                      0.5 * (lla1[:, 2] + lla2[:, 2]))""", """    rn, _, rp = earth.principal_radii(0.5 * (lla1[:, 0] + lla2[:, 0]),
+                                      0.5 * (lla1[:, 2] - lla2[:, 2]))""", 'seeded C16 round 3: metre scale at half the altitude difference')
 _CI_OLD = ["        self.transform = np.identity(3)\n        self.bias = np.zeros(3)\n\n    @staticmethod",
            "                self.transform[axis_out, axis_in] += xi\n",
            "        corrected = np.linalg.solve(self.transform,\n                                    (increments.values - self.bias * dt).T).T"]
